@@ -186,9 +186,13 @@ def engine_traces(names, consts, schedule, chains=2, seed=0, chunk_thin=1, late=
                 r["acc"] = fstr(np.float32(e["acc"]))
                 r["tie"] = e["tie"]
             ev.append(r)
-        out.append({"hdr": ghdr(target, gamma, kappa, t0, tunes=tunes, hasmm=hasmm, kind="engine",
-                                kernel=names[ki], chain=c, schedule=[list(s) for s in schedule]),
-                    "ev": ev})
+        h = ghdr(target, gamma, kappa, t0, tunes=tunes, hasmm=hasmm, kind="engine",
+                 kernel=names[ki], chain=c, schedule=[list(s) for s in schedule])
+        # the step size the kernel was constructed with (unless it was left to the kernel)
+        given = {"rw_support": max(eps0, 0.8), "nuts_funnel": max(eps0, 1.0), "nuts_auto": None}.get(names[ki], eps0)
+        if given is not None:
+            h["eps0"] = fstr(np.float32(given))
+        out.append({"hdr": h, "ev": ev})
     return out
 
 
